@@ -187,6 +187,20 @@ static int configAssign(MPT_INTERFACE(config) *cfg, const MPT_STRUCT(path) *path
 	
 	/* get/create config base node */
 	if (c->base.len) {
+		/* refuse before the base is created: value without representation, over-long path element */
+		if (val) {
+			MPT_STRUCT(path) tmp = *path;
+			int len;
+			if (!(mt = mpt_meta_new(val))) {
+				return MPT_ERROR(BadOperation);
+			}
+			mt->_vptr->unref(mt);
+			while ((len = mpt_path_next(&tmp)) >= 0) {
+				if (len >= UINT16_MAX) {
+					return MPT_ERROR(BadOperation);
+				}
+			}
+		}
 		if (!(n = make_global(&c->base))) {
 			return MPT_ERROR(BadOperation);
 		}
